@@ -28,6 +28,7 @@ theorem simC_step (n : Nat) (hS : SimS n) (hC : SimC n) (hW : SimW n) (hE : SimE
   | test x neg v => exact (sim_test x neg v hd hp hx _ (by simp [isChecked])).inl
   | assign x w => exact (sim_assign x w hd hp hx _).inl
   | assignSub x p => exact (sim_assignSub hS x p hst hs hd hl hp hx _ (by simp [isChecked])).inl
+  | echoSub w1 p w2 => exact (sim_echoSub hS w1 p w2 hst hs hd hl hp hx _).inl
   | call f =>
     cases hf : lookupFn s.funcs f with
     | none => exact (sim_call_none f hf hd hp hx _ (by simp [isChecked])).inl
